@@ -91,6 +91,7 @@ func loadProg(repo, goos, tags string) (*Prog, error) {
 		}
 		return a.String() < b.String()
 	})
+	p.initHelperSites()
 	return p, nil
 }
 
@@ -133,7 +134,9 @@ func (p *Prog) fn(pkgSuffix, name string) *ssa.Function {
 	if sp == nil {
 		return nil
 	}
-	return sp.Func(name)
+	f := sp.Func(name)
+	markAnchor(f)
+	return f
 }
 
 // method returns the method typeName.name (pointer or value receiver) declared in the package.
@@ -153,7 +156,9 @@ func (p *Prog) method(pkgSuffix, typeName, name string) *ssa.Function {
 	for i := 0; i < named.NumMethods(); i++ {
 		m := named.Method(i)
 		if m.Name() == name {
-			return p.prog.FuncValue(m)
+			f := p.prog.FuncValue(m)
+			markAnchor(f)
+			return f
 		}
 	}
 	return nil
@@ -229,11 +234,9 @@ func withAnons(f *ssa.Function) []*ssa.Function {
 	if f == nil {
 		return nil
 	}
-	out := []*ssa.Function{f}
-	for _, a := range f.AnonFuncs {
-		out = append(out, withAnons(a)...)
-	}
-	return out
+	out := plainWithAnons(f)
+	// and the transparent helpers they call (transparent.go)
+	return append(out, helpersCalledFrom(out)...)
 }
 
 func eachInstr(f *ssa.Function, fn func(ssa.Instruction)) {
@@ -253,9 +256,9 @@ func staticCallee(c ssa.CallInstruction) *ssa.Function {
 	}
 	switch v := deref(cc.Value).(type) {
 	case *ssa.Function:
-		return v
+		return boundTarget(v)
 	case *ssa.MakeClosure:
-		return v.Fn.(*ssa.Function)
+		return boundTarget(v.Fn.(*ssa.Function))
 	}
 	return nil
 }
